@@ -53,7 +53,8 @@ def csvBounds : Nat → Nat → Bytes → List Nat × Term
           let o := off + (s.length - rest.length)
           let q := csvBounds fuel o rest
           (o :: q.1, q.2)
-        | _ => ([], .err)
+        | .error e => ([], if e = eEOF then .eof else .err)
+        | .panic => ([], .err)
 
 def handle (op : String) (args : List String) : Option String :=
   if op.startsWith "c07." then Vegeta.Driver.C07.handle op args else
